@@ -9,6 +9,8 @@ import (
 	"flag"
 	"fmt"
 	"os"
+	"runtime/debug"
+	"runtime/pprof"
 	"sort"
 	"strings"
 	"time"
@@ -20,6 +22,10 @@ const harnessDir = "/verif/harness"
 const modulePath = "github.com/vmware/go-ipfix"
 
 func main() {
+	// the loaded program (SSA and types of ~180 packages) is a large, static
+	// heap: collect rarely instead of rescanning it for every few MB of garbage
+	debug.SetGCPercent(300)
+	debug.SetMemoryLimit(40 << 30)
 	if len(os.Args) < 2 {
 		usage()
 	}
@@ -63,7 +69,13 @@ func cmdRun(args []string) int {
 	lazy := fs.Bool("lazy", false, "lazy make")
 	hang := fs.Bool("hang", false, "budget overrun is a violation")
 	budget := fs.Int64("budget", 20_000_000, "instruction budget per path")
+	prof := fs.String("cpuprofile", "", "write a CPU profile")
 	fs.Parse(args)
+	if *prof != "" {
+		f, _ := os.Create(*prof)
+		pprof.StartCPUProfile(f)
+		defer pprof.StopCPUProfile()
+	}
 	if fs.NArg() < 2 {
 		usage()
 	}
